@@ -89,6 +89,15 @@ func (g *gen) histProduct(fam string) {
 		}
 	}
 	g.configs = len(confs)
+	// distinct compared calls: positions whose (operation, arguments, result) digest differs from every earlier position
+	seen := map[string]bool{}
+	for _, e := range base {
+		d := digest(e)
+		if !seen[d] {
+			seen[d] = true
+			g.productDistinct++
+		}
+	}
 }
 
 func digest(e hx.Ev) string {
